@@ -30,4 +30,12 @@ sub('harness/props/c10.py','''    out["tags"] = sorted(set(out["tags"]))''',''' 
     out["tags"] = sorted(set(out["tags"]))''')
 sub('harness/props/c01.py','MODULES = [','MODULES = ["LbfgsbVerif.Props.C09Solve", ')
 sub('harness/props/c01.py','THEOREMS = [','THEOREMS = ["Lbfgsb.C09.complete_iteration_descent_solved", ')
+
+# manifest texts
+sub('harness/manifest_gen.py', "symmetric middle matrix, B positive definite, the Fortran floor on f'' inactive. The Float ",
+    "symmetric middle matrix, B positive definite, the Fortran floor on f'' inactive; middle_product_exact / gcp_first_local_min_solved (Props/C09Solve) discharge the exact-product hypothesis: the model's Gauss-Jordan elimination is proved to return the solution of the system, and a matrix with a left inverse (Mm M^-1 = 1) has no vanishing pivot. The Float ")
+sub('harness/manifest_gen.py', "as C08 proves), witnessed by a concrete instance. Numerical equality with the dense Newton solve, ",
+    "as C08 proves), witnessed by a concrete instance; gauss_solves / gauss_unique / regular_pivots (Props/C09Solve + Proofs/Gauss, GaussBridge): the model's elimination with partial pivoting returns THE solution whenever no pivot vanishes, whatever row is picked, and no pivot vanishes when the matrix is injective; subspace_newton_point_solved / subspace_model_no_increase_solved / subspace_direction_descent_solved (under the computable pivot condition SubCtxP) and subspace_newton_point_pd (sizes, Mm M^-1 = 1, c = W^T(x_cp - x) and a positive definite model only: the reduced matrix N is then injective) carry no assumption on any solve. Numerical equality with the dense Newton solve, ")
+sub('harness/manifest_gen.py', "rebuilds after the stored gradients were rewritten (the update_fun_def path of main.py), also with a rejected candidate.",
+    "rebuilds after the stored gradients were rewritten (the update_fun_def path of main.py), also with a rejected candidate; the product with the middle matrix through the code's triangular factors (bmv) is compared with the model's elimination (whose list form — the one the theorems are about — and array form must agree bit for bit), and the share of explored matrices whose pivots do not vanish is reported.")
 print("ok")
